@@ -11,6 +11,7 @@ package verifhook
 import (
 	"bytes"
 	"fmt"
+	"os"
 	"runtime"
 	"strconv"
 	"sync"
@@ -29,6 +30,7 @@ type nthread struct {
 	reached  chan struct{}
 	running  bool // holds the controller's permission to run
 	mutexWait bool // parked because a mutex it wants is held
+	dead     bool // belongs to a generation that crashed: never runs again
 }
 
 type controller struct {
@@ -40,6 +42,7 @@ type controller struct {
 	crashed  bool
 	finished chan struct{}
 	active   bool
+	workers  int
 }
 
 var ctl *controller
@@ -115,6 +118,10 @@ func (c *controller) lookupGID(gid int64) *nthread {
 
 func (t *nthread) waitGate() {
 	ctl.mu.Lock()
+	if t.dead {
+		ctl.mu.Unlock()
+		select {} // a crashed generation never runs again
+	}
 	if !ctl.active {
 		ctl.mu.Unlock()
 		return
@@ -136,12 +143,11 @@ func nativeYield(site string) {
 	t := c.lookupGID(gid)
 	if t == nil {
 		// first yield of a goroutine nobody registered: the pond worker
-		name := "worker"
 		c.mu.Lock()
-		if _, taken := c.threads[name]; taken {
-			if c.threads[name].gid != 0 && c.threads[name].gid != gid {
-				name = fmt.Sprintf("worker%d", len(c.threads))
-			}
+		c.workers++
+		name := "worker"
+		if c.workers > 1 {
+			name = fmt.Sprintf("worker%d", c.workers)
 		}
 		c.mu.Unlock()
 		t = c.register(name, gid)
@@ -165,7 +171,40 @@ func nativeYield(site string) {
 	}
 }
 
+// processDied records that a goroutine of the program under test ended in an uncaught
+// panic: in production the process would be gone. The replay stops judging from here.
+func processDied(r interface{}) {
+	if os.Getenv("VERIF_DEBUG") != "" {
+		buf := make([]byte, 1<<16)
+		n := runtime.Stack(buf, false)
+		fmt.Fprintf(os.Stderr, "processDied(%v) in case %v\n%s\n", r, CurrentCase.ID, buf[:n])
+	}
+	mu.Lock()
+	if Died == "" {
+		Died = fmt.Sprint(r)
+	}
+	mu.Unlock()
+	if c := ctl; c != nil {
+		c.releaseAll()
+	}
+}
+
+func guarded(f func()) func() {
+	return func() {
+		defer func() {
+			if r := recover(); r != nil {
+				if _, ok := r.(AssumeFailed); ok {
+					return
+				}
+				processDied(r)
+			}
+		}()
+		f()
+	}
+}
+
 func nativeSpawn(name string, f func()) {
+	f = guarded(f)
 	c := ctl
 	if c == nil || !c.active {
 		go f()
@@ -294,6 +333,9 @@ func (c *controller) releaseAll() {
 	}
 	c.mu.Unlock()
 	for _, t := range ts {
+		if t.dead {
+			continue
+		}
 		t.stopAt = 0
 		select {
 		case t.gate <- struct{}{}:
@@ -361,6 +403,9 @@ func (c *controller) run() {
 		t.gate <- struct{}{}
 		switch s.Stop {
 		case "free":
+			// the recorded schedule ends here: let everything run to completion
+			time.Sleep(2 * time.Millisecond)
+			c.releaseAll()
 			return
 		case "yield", "crash":
 			select {
@@ -383,6 +428,11 @@ func (c *controller) run() {
 			t.running = false
 			if s.Stop == "crash" {
 				c.crashed = true
+				for _, o := range c.threads {
+					if o.name != "main" {
+						o.dead = true
+					}
+				}
 			}
 			c.mu.Unlock()
 		case "block", "end":
@@ -480,7 +530,7 @@ func spawn(name string, f func()) {
 		SpawnHook(name, f)
 		return
 	}
-	go f()
+	go guarded(f)()
 }
 
 func quiesce() {
